@@ -934,7 +934,7 @@ func c06SeedFrame(c *Ctx, p *Prog) {
 	if len(ops) < 2 {
 		bad = "the frame buffer receives fewer than two writes"
 	} else {
-		if ops[0].Method != "Write" {
+		if ops[0].Method != "Write" && ops[0].Method != "Init" {
 			bad = "the response blob is not written first"
 		} else if gc, _ := callOf(unspill(ops[0].Args[0])); gc == nil || gc.Common().StaticCallee() == nil || gc.Common().StaticCallee().Name() != "generateHandshake" {
 			bad = "the first write is not the generated server handshake"
